@@ -261,6 +261,48 @@ func genC08(env *core.Env, emit func(core.Case)) {
 			env.Count("stall/" + x.err)
 		}
 	}
+	// amplification: an (authentically sealed) inner hello must not make NewConn build or hold much more
+	// than the record that carried it, however its ech_outer_extensions list is written
+	{
+		bigT := uint16(0xffa0)
+		otherT := uint16(0xffa1)
+		for vi, refs := range [][]uint16{
+			{bigT},                                   // control: one reference, accepted
+			repeatU16([]uint16{bigT}, 127),           // the same large extension 127 times
+			repeatU16([]uint16{bigT, otherT}, 60),    // two extensions alternating
+			repeatU16([]uint16{otherT, bigT, bigT}, 40),
+		} {
+			idx++
+			outer := gen.BaseHello(r)
+			outer.Version = 0x0303
+			outer.SID = gen.RandBytes(r, 32)
+			outer.Exts = []gen.Ext{gen.SNI("public.example"), gen.Versions(0x0304, 0x0303), {Type: bigT, Data: gen.RandBytes(r, 14000)}, {Type: otherT, Data: gen.RandBytes(r, 40)}}
+			inner := gen.BaseHello(r)
+			inner.Version = 0x0303
+			inner.SID = nil
+			inner.Exts = []gen.Ext{gen.SNI("inner.example"), gen.ECHInner(), gen.Versions(0x0304), gen.OuterExtensions(refs...)}
+			sealed := gen.Seal(outer, 2, key, gen.AllSuites[0], inner.Body(), nil, 0x0301)
+			var m0, m1 runtime.MemStats
+			runtime.GC()
+			runtime.ReadMemStats(&m0)
+			fc := &connh.FakeConn{Chunks: oneChunk(sealed.Rec), Fin: "eof"}
+			c, err := ech.NewConn(context.Background(), fc, ech.WithKeys(echKeys(key)))
+			runtime.ReadMemStats(&m1)
+			alloc := m1.TotalAlloc - m0.TotalAlloc
+			w := ""
+			if vi == 0 && (err != nil || c == nil || !c.ECHAccepted()) {
+				w = fmt.Sprintf("control hello with one large referenced extension not accepted: %v", err)
+			}
+			// the record is about 14.5 KB; building the inner hello, its record and the AAD stays well below 1 MiB
+			if alloc > 1<<20 {
+				w = fmt.Sprintf("NewConn allocated %d bytes for a %d-byte record whose ech_outer_extensions lists %d references (err=%v)", alloc, len(sealed.Rec), len(refs), err)
+			}
+			emit(core.Case{Name: fmt.Sprintf("amplify/%d", vi), Stream: "amplify", Key: "amplify",
+				Ops: []core.Op{{Kind: 'X', Note: "memory used for one hello is bounded by a small multiple of the maximum record size", Want: w}},
+				Sig: fmt.Sprintf("amplify/%d/%s", vi, connh.ErrClass(err)), Sample: map[string]any{"mutator": "amplify", "references": len(refs), "allocated": alloc, "outcome": connh.ErrClass(err)}})
+			env.Count("amplify/" + connh.ErrClass(err))
+		}
+	}
 	// memory: a connection holds at most a small multiple of the maximum record size
 	{
 		_, sealed := validTuple()
@@ -321,9 +363,10 @@ func (c *stallConn) Read(b []byte) (int, error) {
 		c.mu.Unlock()
 		return n, nil
 	}
+	d := c.deadline
 	c.mu.Unlock()
 	select {
-	case <-c.deadline:
+	case <-d:
 		return 0, os.ErrDeadlineExceeded
 	case <-c.closed:
 		return 0, net.ErrClosed
@@ -331,7 +374,22 @@ func (c *stallConn) Read(b []byte) (int, error) {
 		return 0, connh.ErrScripted
 	}
 }
-func (c *stallConn) Write(b []byte) (int, error) { return len(b), nil }
+
+// Write blocks like a synchronous pipe whose peer has stopped reading: until a deadline in force
+// has passed, the conn is closed, or (after 5 s) the harness gives up.
+func (c *stallConn) Write(b []byte) (int, error) {
+	c.mu.Lock()
+	d := c.deadline
+	c.mu.Unlock()
+	select {
+	case <-d:
+		return 0, os.ErrDeadlineExceeded
+	case <-c.closed:
+		return 0, net.ErrClosed
+	case <-time.After(5 * time.Second):
+		return 0, connh.ErrScripted
+	}
+}
 func (c *stallConn) Close() error {
 	c.once.Do(func() { close(c.closed) })
 	return nil
@@ -339,16 +397,30 @@ func (c *stallConn) Close() error {
 func (c *stallConn) LocalAddr() net.Addr  { return &net.TCPAddr{} }
 func (c *stallConn) RemoteAddr() net.Addr { return &net.TCPAddr{} }
 func (c *stallConn) SetDeadline(t time.Time) error {
-	if !t.IsZero() && !t.After(time.Now().Add(time.Millisecond)) {
-		c.mu.Lock()
-		select {
-		case <-c.deadline:
-		default:
-			close(c.deadline)
+	c.mu.Lock()
+	defer c.mu.Unlock()
+	passed := false
+	select {
+	case <-c.deadline:
+		passed = true
+	default:
+	}
+	if t.IsZero() {
+		if passed {
+			c.deadline = make(chan struct{}) // deadline cleared: I/O blocks again
 		}
-		c.mu.Unlock()
+	} else if !t.After(time.Now().Add(time.Millisecond)) && !passed {
+		close(c.deadline)
 	}
 	return nil
 }
 func (c *stallConn) SetReadDeadline(t time.Time) error  { return c.SetDeadline(t) }
 func (c *stallConn) SetWriteDeadline(t time.Time) error { return nil }
+
+func repeatU16(pat []uint16, n int) []uint16 {
+	var out []uint16
+	for i := 0; i < n; i++ {
+		out = append(out, pat...)
+	}
+	return out
+}
